@@ -14,10 +14,14 @@
 (* fire in the action Wait, which does not advance the coarse clock, and   *)
 (* Tick is disabled while a timer is due.                                  *)
 (*                                                                         *)
-(* Variant "design"      the protocol as documented                        *)
-(*         "code"        = design + the hand-over between refresher and    *)
-(*                         expiry monitor as implemented (two unbuffered   *)
-(*                         channel sends that can block each other)        *)
+(* Variant "code"/"design"  the protocol as implemented: when the expiry    *)
+(*                         monitor wants to hand over a forced refresh     *)
+(*                         while the refresher reports a (slow) successful *)
+(*                         regular refresh, the notification is accepted   *)
+(*                         and ignored, then the forced refresh runs       *)
+(*         "blockinghandover" negative twin (restic before 0bbee0d26): the *)
+(*                         two unbuffered channel sends block each other,  *)
+(*                         no refresh and no cancellation ever after       *)
 (*         "norecheck"   negative twin: no second check after creating     *)
 (*         "removefirst" negative twin: refresh removes the old lock file  *)
 (*                         before it creates the replacement               *)
@@ -197,8 +201,8 @@ RRm(p) ==
           ELSE /\ files' = files \ {r.mine}
                /\ IF r.forcing /\ r.ctx
                   THEN \* the monitor is waiting to hand over a forced refresh while the refresher wants to report success
-                       IF Variant = "code" THEN Move(p, [r1 EXCEPT !.lastRef = r.ts, !.pc = "stuck"], StepH(p))
-                       ELSE Move(p, [r1 EXCEPT !.lastRef = r.ts, !.monRef = Local(p), !.forcing = FALSE, !.pc = "hold"], StepH(p))
+                       IF Variant = "blockinghandover" THEN Move(p, [r1 EXCEPT !.lastRef = r.ts, !.pc = "stuck"], StepH(p))
+                       ELSE Move(p, [r1 EXCEPT !.lastRef = r.ts, !.pc = "f1"], StepH(p))   \* notification ignored, forced refresh follows
                   ELSE Move(p, [r1 EXCEPT !.lastRef = r.ts, !.monRef = Local(p), !.pc = Ret(r1)], StepH(p))
 
 ---------------------------------------------------------------------------
